@@ -33,6 +33,7 @@ def run(ck, tier):
     _acc2.run2(ck, F, 'C07')
     from . import c07x
     c07x.run(ck, F)
+    c07x.run_exact_polarity(ck, F)
     ck.rule("C07.bloom-insert", "each value encoder inserts the values it encodes into the bloom filter whenever one is present: the insert exists and is "
             "control dependent on the bloom_filter field but on no statistics setting", floor=len(ENCODERS))
     ck.rule("C07.minmax-updated", "each value encoder updates min_value and max_value (sibling agreement)", floor=len(ENCODERS))
